@@ -37,7 +37,7 @@ type Monitor struct {
 	// Require lists counters that must be non-zero after the run; otherwise the
 	// run is inconclusive (a monitor that saw nothing must not pass).
 	Require []string
-	// MemLimitKB, if non-zero, is applied to workers with ulimit -v.
+	// MemLimitKB is applied to workers with ulimit -v (0 = default 4 GB, negative = no limit).
 	MemLimitKB int
 	// Special, if set, replaces the generic parent (used by the race monitor).
 	Special func(p *Parent) int
